@@ -469,7 +469,7 @@ def silf_table(spec):
     if version >= 0x00030000:
         sub += u32(0x00030000) + u16(0) + u16(0)
     sub += u16(nglyphs - 1) + i16(spec.get('extra_ascent', 0)) + i16(spec.get('extra_descent', 0))
-    sub += u8(npass) + u8(spec.get('ilb', 0)) + u8(nsubst) + u8(spec.get('ijust', npass)) + u8(spec.get('ibidi', 0xFF)) + u8(spec.get('silf_flags', 0))
+    sub += u8(npass) + u8(min(spec.get('ilb', 0), nsubst)) + u8(nsubst) + u8(spec.get('ijust', npass)) + u8(spec.get('ibidi', 0xFF)) + u8(spec.get('silf_flags', 0))
     sub += u8(2) + u8(8)
     sub += u8(A_PSEUDO) + u8(A_BREAK) + u8(A_BIDI) + u8(A_MIRROR) + u8(spec.get('apassbits', 0))
     justs = spec.get('justs', [])
